@@ -1770,7 +1770,7 @@ impl ElementMut for XmlElement {
             return Err(error::DomException::WrongDocumentErr)?;
         }
 
-        if new_attr.attribute.borrow().order() != 0 {
+        if new_attr.attribute.borrow().owner_element().is_ok() {
             return Err(error::DomException::InuseAttributeErr)?;
         }
 
